@@ -1,12 +1,17 @@
 import RimeModel.Basic.Hex
 import RimeModel.C10.Model
 import RimeModel.C10.FloatDee
+import RimeModel.C10.Encoder
 /-!
 Line protocol for C10 (same lines the harness `c10_harness` prints, plus a header written by the check):
 
   style script|table            which `Memorize` / `Query` the translator under test has
-  predict none|script <n>|table candidate-list prediction: off / script style with fixed syllable length n / table style
+  predict none|script <n>|table [<completion 0|1> <max_homographs>]
+                                candidate-list prediction: off / script style with fixed syllable length n / table style
+                                (defaults: completion on, max_homographs 1)
   dict <text> <code> <weight>   one row of the static dictionary (for the prediction)
+  E encode_phrase <phrase> <value 0|1> <k> <code>^k   one `EncodePhrase` call of the unity table encoder and the codes it created
+  E history <k> (<type> <text>)^k                     the commit history (oldest first) at the commit that follows
   E reset | E query <ns> <lookup 0|1> | E commit <now> <nseg> (<status> <sel>)* | E delete <sel> | E unhandled <keycode> <mod> <now> | E close <ns>
         <sel> ::= n - - | u <text> - | p <text> <code> | s <text> <code> <k> (<text> <code>)^k
   O db …      → `M db tick=<durable tick> member=<tick_> intxn=<0|1> n=<k> <code>|<text>|<c>|<dee bits>|<t> …` (sorted by key)
@@ -25,13 +30,21 @@ structure DictRow where
 inductive Predict where
   | none
   | script (syl : Nat)
-  | table
+  /-- table style; `completion` = `translator/enable_completion` (LazyTableTranslation with predictive user phrases, else
+  the plain `TableTranslation` of exact matches), `maxHomo` = `translator/max_homographs` -/
+  | table (completion : Bool) (maxHomo : Nat) (enc : Bool)
 
 structure St where
   style : Style := Style.script
   predict : Predict := Predict.none
   dict : Array DictRow := #[]
   ud : UD Float := UD.empty
+  /-- `translator/enable_encoder` with a loaded encoder: `encode_commit_history`, `max_phrase_length` -/
+  enc : Option EncCfg := none
+  /-- `E encode_phrase` events since the last commit: (phrase, value "1"?, codes) -/
+  encEvents : Array (Bytes × Bool × List Bytes) := #[]
+  /-- the commit history at the commit being processed, newest first -/
+  hist : List (String × Bytes) := []
 
 def hexBytes (s : String) : Option Bytes := Hex.decode s
 
@@ -80,6 +93,15 @@ def parseSegs : Nat → List String → Option (List Seg)
     let rest ← parseSegs k r.2
     pure ({ status := status, sel := r.1 } :: rest)
   | _, _ => none
+
+/-- `<type> <text>` pairs of an `E history` line, oldest first -/
+def parseHistory : List String → Option (List (String × Bytes))
+  | [] => some []
+  | ty :: tx :: rest => do
+    let t ← hexBytes tx
+    let r ← parseHistory rest
+    pure ((ty, t) :: r)
+  | _ => none
 
 /-- bytewise order of the db keys `code ' ' … '\t' text` -/
 def keyBytes (k : Key) : Bytes := (k.code.flatMap (fun s => s ++ [32])) ++ [9] ++ k.text
@@ -194,7 +216,7 @@ def startsWithB : Bytes → Bytes → Bool
 
 /-- table style.  Oracle parts (taken from the implementation's list): the sentence text and the order of the
 table completions (`completion` candidates that do not come from the user dictionary). -/
-def predictTable (st : St) (ws : List String) : String :=
+def predictTable (st : St) (completion : Bool) (maxHomo : Nat) (enc : Bool) (ws : List String) : String :=
   match field ws "input", field ws "seg" with
   | some inp, some seg =>
     if seg == "-" then "M cands n=0" else
@@ -208,7 +230,11 @@ def predictTable (st : St) (ws : List String) : String :=
         let db := sortedDb st.ud.durable
         let userEx (c : Bytes) := sortByWeight (userExact FloatDee.ops db present [c])
         let sysEx (c : Bytes) := (sysRows st [c]).map fun r => ({ text := r.text, user := false, sentence := false } : Cand)
-        let userPred : List UCand := (db.filter fun p =>
+        -- constructed phrases (`encoder_->LookupPhrases`): the same lookup under the prefixed key, sorted on their own
+        let consEx (c : Bytes) : List UCand := if enc then sortByWeight (userExact FloatDee.ops db present [encPrefix ++ c]) else []
+        -- MakeSentence: the constructed phrases of a prefix are looked up only when no plain user phrase filled the edge
+        let userOrCons (c : Bytes) : List UCand := if (userEx c).isEmpty then consEx c else userEx c
+        let userPred : List UCand := if !completion then [] else (db.filter fun p =>
           match p.1.code with
           | [c] => startsWithB c w && c.length > w.length
           | _ => false).filterMap (createDictEntry FloatDee.ops present false)
@@ -219,7 +245,8 @@ def predictTable (st : St) (ws : List String) : String :=
           | _ => none
         let sysPred : List Cand := (impl.filter fun (_, ty, org) => ty == "completion" && org == "s").map
           fun (x, _, _) => ({ text := x, user := false, sentence := false } : Cand)
-        let direct := tableList (userEx w) (sysEx w) userPred sysPred
+        -- `PreferUserPhrase`: an exact table entry goes before a constructed user phrase
+        let direct := tableList (userEx w) (sysEx w ++ (consEx w).map UCand.toCand) userPred sysPred
         if !direct.isEmpty then
           showCands (dedupP (direct.map fun c => ({ text := c.text, cls := clsOf c, end_ := stop } : PCand)) [])
         else
@@ -232,10 +259,10 @@ def predictTable (st : St) (ws : List String) : String :=
           | some t =>
             let n := w.length
             let ks := (List.range (n - 1)).reverse.map (· + 1)
-            let cs := tableSentenceList (some t) (ks.map fun k => (userEx (w.take k), sysEx (w.take k)))
+            let cs := tableSentenceListH maxHomo (some t) (ks.map fun k => (userOrCons (w.take k), sysEx (w.take k)))
             -- end position: the sentence covers the segment, a prefix phrase its prefix
             let ends : List Nat := stop :: ks.flatMap fun k =>
-              List.replicate (if (userEx (w.take k)).isEmpty then (sysEx (w.take k)).length else (userEx (w.take k)).length) (start + k)
+              List.replicate ((userOrCons (w.take k)).length + (if (userOrCons (w.take k)).length < maxHomo then (sysEx (w.take k)).length else 0)) (start + k)
             showCands (dedupP ((cs.zip ends).map fun (c, e) => ({ text := c.text, cls := clsOf c, end_ := e } : PCand)) [])
       | _, _ => "bad-op"
     | _, _ => "bad-op"
@@ -247,7 +274,17 @@ def step (st : St) (line : String) : St × List String :=
   | ["style", "script"] => ({ st with style := Style.script }, [])
   | ["style", "table"] => ({ st with style := Style.table }, [])
   | ["predict", "none"] => ({ st with predict := Predict.none }, [])
-  | ["predict", "table"] => ({ st with predict := Predict.table }, [])
+  | ["predict", "table"] => ({ st with predict := Predict.table true 1 false }, [])
+  | ["predict", "table", c, mh] =>
+    match mh.toNat? with
+    | some mh => if mh == 0 || (c != "0" && c != "1") then (st, ["bad-op"]) else ({ st with predict := Predict.table (c == "1") mh false }, [])
+    | none => (st, ["bad-op"])
+  | ["predict", "table", c, mh, "enc", ech, mpl] =>
+    match mh.toNat?, parseInt mpl with
+    | some mh, some mpl =>
+      if mh == 0 || (c != "0" && c != "1") || (ech != "0" && ech != "1") then (st, ["bad-op"])
+      else ({ st with predict := Predict.table (c == "1") mh true, enc := some { commitHistory := ech == "1", maxPhraseLength := mpl } }, [])
+    | _, _ => (st, ["bad-op"])
   | ["predict", "script", n] =>
     match n.toNat? with
     | some n => if n == 0 then (st, ["bad-op"]) else ({ st with predict := Predict.script n }, [])
@@ -257,7 +294,17 @@ def step (st : St) (line : String) : St × List String :=
     | some t, some c, some w => ({ st with dict := st.dict.push { text := t, code := c, weight := w } }, [])
     | _, _, _ => (st, ["bad-op"])
   | "#" :: "op" :: n :: _ => (st, ["# op " ++ n])
-  | ["E", "reset"] => ({ st with ud := UD.empty }, [])
+  | ["E", "reset"] => ({ st with ud := UD.empty, encEvents := #[], hist := [] }, [])
+  | "E" :: "encode_phrase" :: ph :: val :: k :: codes =>
+    match hexBytes ph, k.toNat?, codes.mapM hexBytes with
+    | some ph, some k, some codes =>
+      if k != codes.length || (val != "0" && val != "1") then (st, ["bad-op"])
+      else ({ st with encEvents := st.encEvents.push (ph, val == "1", codes) }, [])
+    | _, _, _ => (st, ["bad-op"])
+  | "E" :: "history" :: k :: rest =>
+    match k.toNat?, parseHistory rest with
+    | some k, some h => if k != h.length then (st, ["bad-op"]) else ({ st with hist := h.reverse }, [])
+    | _, _ => (st, ["bad-op"])
   | ["E", "query", ns, flag] =>
     if ns == "translator" then ({ st with ud := st.ud.onQuery st.style (flag == "1") }, []) else (st, [])
   | "E" :: "close" :: ns :: _ =>
@@ -269,6 +316,19 @@ def step (st : St) (line : String) : St × List String :=
       match parseSegs nseg rest with
       | some segs =>
         let ces := groupCommit segs
+        match st.enc, st.style with
+        | some cfg, Style.table =>
+          -- the encoder proper is an oracle: the codes of the first recorded call for the phrase
+          let evs := st.encEvents.toList
+          let oracle (p : Bytes) : List Bytes := match evs.find? (fun e => e.1 == p) with
+            | some e => e.2.2
+            | none => []
+          let r := st.ud.onCommitEnc FloatDee.ops cfg oracle st.hist segs now
+          let calls := ces.flatMap (encodeCalls cfg st.hist)
+          ({ st with ud := r.1, encEvents := #[], hist := [] },
+           ces.map (showMemorize "translator") ++
+           calls.map (fun (p, one) => s!"M encode_phrase {Hex.encode p} {if one then 1 else 0}") ++ [showUpdates r.2])
+        | _, _ =>
         let ups := commitUpdates st.style segs
         ({ st with ud := st.ud.onCommit FloatDee.ops st.style segs now },
          ces.map (showMemorize "translator") ++ [showUpdates ups])
@@ -290,7 +350,7 @@ def step (st : St) (line : String) : St × List String :=
     match st.predict with
     | Predict.none => (st, ["M cands -"])
     | Predict.script n => (st, [predictScript st n rest])
-    | Predict.table => (st, [predictTable st rest])
+    | Predict.table c mh enc => (st, [predictTable st c mh enc rest])
   | _ => (st, [])
 
 partial def loop (h : IO.FS.Stream) (out : IO.FS.Stream) (st : St) : IO Unit := do
